@@ -118,6 +118,20 @@ def multi_error(r):
     return {"/main.sy": body}
 
 
+def selfref(r):
+    """programs that ask the type checker for a type that contains itself (through tuples, lists, functions, blobs,
+    enums) and then use an operator on it: every walk over a type has to terminate (a cyclic tuple type used to
+    overflow the native stack)"""
+    embed = r.choice(["(y, 1)", "(y,)", "[y]", "(1, (y, 2))", "[(y, 1)]", "([y], 1)", "fn -> do y end", "(fn a do a end)(y)",
+                      "(q, 1)", "[q]", "B { n: y }", "E.W y", "(y, y)"])
+    use = r.choice(["z := y + y", "z := y < y", "z := y == y", "z := -y", "z := y * y", "z := (y, y) <= (y, y)", "print(y)",
+                    "z := y[0]", "z := y - (y, 1)", "z := y / 2", "y += y", "z := [y, y]", "z := y.n", "case y do W v -> v end else y end end"])
+    src = ("print: fn *X -> void : external\nB :: blob { n: * }\nE :: enum W *, N end\n"
+           "f :: fn x, p do\n  y := x\n  q := p\n  q = %s\n  y = %s\n  %s\nend\nstart :: fn do\n%send\n"
+           % (r.choice(["(y, 2)", "[y]", "p", "(q,)"]), embed, use, r.choice(["", "  f(1, 2)\n", "  f((1, 2), [3])\n"])))
+    return {"/main.sy": src}
+
+
 def multi_file(r):
     """small projects with missing / conflicting / cyclic imports"""
     n = r.randint(2, 4)
@@ -222,8 +236,10 @@ def _stream(r, n, std_ratio=0.1):
             out.append(("mutant", {"/main.sy": mutate(r, s)}, flags))
         elif k < 0.55:
             out.append(("soup", {"/main.sy": soup(r)}, flags))
-        elif k < 0.75:
+        elif k < 0.72:
             out.append(("multi-error", multi_error(r), flags))
+        elif k < 0.75:
+            out.append(("self-reference", selfref(r), flags))
         elif k < 0.9:
             out.append(("multi-file", multi_file(r), flags))
         else:
